@@ -57,6 +57,9 @@ CLAIMED = {
  "C14": dict(engine="tlv", design="4 C14", technique="TLA+ spec (NameOrder: canonical order) proved a total order by TLC on an enumerated universe; the real name comparison / equality / prefix / hash / URI functions evaluated on that universe and judged by TLC",
    text="TLC enumerates names adversarially close to each other (one byte, one length, one type apart, prefix-related, all 256 byte values) and parser inputs over separators and escapes, proves that NameCmp is a total order (antisymmetry, transitivity, prefix-first) on the universe, and the observations of the real Compare/Equal/IsPrefix/Hash/PrefixHash/Bytes/String/NameFromStr on names, pairs and strings are validated against NameOrder in one TLC pass.",
    note="Universe bounded to 3 components / 3-byte values; URI round trip required only for types 1..65535 with shortest-form numbers. " + TB),
+ "C15": dict(engine="object", design="4 C15", technique="TLA+ spec (ObjectFetch: segment fetcher with window, retries, loss and reordering; abstract publications and store) model-checked by TLC incl. liveness; real object.Client producer/consumer runs and store operation histories validated by TLC",
+   text="TLC checks on the implementation-shaped fetcher that a consume completes at most once, delivers contiguous in-order segments, never fails while losses stay within the retry budget, and eventually completes (weak fairness); real producer/consumer clients on real engines are run in a synctest bubble with the harness as a reordering, lossy network over both stores, each consume run judged by ConsumeOK against the model's publication history, and every store answer judged against the abstract store.",
+   note="Loss beyond the retry budget is covered by the model only; bolt's 1000-key scan bound is not exercised. " + TB),
 }
 NOT_YET = "check not yet built in this commit (work in progress; see DESIGN.md section 4)"
 NA = {}
